@@ -221,6 +221,8 @@ CLAIMED.update({
 # Clauses added after the first build (rules added because a seeded change was missed, or re-decided
 # from a neighbouring property); appended to the level text.
 ADDENDA = {
+    "C14": " Also decided (R14-accept, rules of C19): the decoder's consistency checks accept what the encoder prints for legal positions - each castling right tested against its own king and rook home squares, one king per side.",
+    "C07": " Also decided (R07-fork, rule of C08): Board.Fork initialises every field of the board and of its fresh head node from the original, the node's hash included, so a fork reports the same hashes.",
     "C11": " Also decided (R11-nested, defect F37): a leaf evaluator that starts a search of its own does not hand it the caller's table.",
     "C01": " Also decided here (re-decided from C02/C06 because the generator and the legality filter rest on them): the castling-rights table CastlingRightsLost over all (From,To) classes, and the attack queries behind IsChecked/IsAttacked/IsAttackedBy/IsCheckMate together with the boards they read (rotated-view windows, slider rays, leaper and pawn tables, Attackboard dispatch: the C06 rules, for every square).",
     "C03": " Hand-back: PopMove is the exact inverse of PushMove, the game result included (R08-inverse re-decided; defect F23). The window clause reads, as corrected after defect F19: the child's bounds are negations of the parent's bounds translated by the inverse of the mate-distance increment, decided as the identity Negate(IncrementMateDistance(bound handed down)) = parent's bound on every abstract score region (R03-window). Also decided: the move loop is left early only on alpha >= beta or cancellation; no node returns on a cut-off before a move was tried or the mate/stalemate verdict produced; the score algebra of C09 including DecrementMateDistance (re-decided as R03-scores); MoveList.Next is empty-exact. Also decided (R03-handback, defect F35): the no-legal-move verdict, which AdjudicateNoLegalMoves writes into the board, is taken back by the search function itself on every path (at the root no take-back would do it).",
